@@ -93,8 +93,22 @@ func (w *World) rangeEnv() *rangeEnv {
 						env.writers[f] = map[*ssa.Function]bool{}
 					}
 					env.writers[f][fn] = true
+				case *ssa.MapUpdate:
+					// pseudo-field "#mapnil": functions that may make a map cell nil again (nil stored, or delete)
+					if k, ok := x.Value.(*ssa.Const); ok && k.Value == nil && nilableType(x.Value.Type()) {
+						if env.writers["#mapnil"] == nil {
+							env.writers["#mapnil"] = map[*ssa.Function]bool{}
+						}
+						env.writers["#mapnil"][fn] = true
+					}
 				}
 				if ci, ok := ins.(ssa.CallInstruction); ok {
+					if bi, ok := ci.Common().Value.(*ssa.Builtin); ok && (bi.Name() == "delete" || bi.Name() == "clear") {
+						if env.writers["#mapnil"] == nil {
+							env.writers["#mapnil"] = map[*ssa.Function]bool{}
+						}
+						env.writers["#mapnil"][fn] = true
+					}
 					if c := ci.Common().StaticCallee(); c != nil {
 						callers[c] = append(callers[c], fn)
 						if isForkPkg(c.Pkg) {
